@@ -116,9 +116,12 @@ pub enum Edit {
     ImpossibleSpreadOfUsedFragment,
     TypenameOnlyInVariantSpread,
     TypenameOnlyInVariantInline,
+    /// like ImpossibleTypeCondition / ImpossibleFragmentSpread, with an INTERFACE or UNION as the type condition
+    ImpossibleAbstractCondition,
+    ImpossibleAbstractSpread,
 }
 
-pub const ALL_EDITS: [Edit; 20] = [
+pub const ALL_EDITS: [Edit; 22] = [
     Edit::UnknownField,
     Edit::SubselectionOnLeaf,
     Edit::NoSelectionOnComposite,
@@ -139,6 +142,8 @@ pub const ALL_EDITS: [Edit; 20] = [
     Edit::ImpossibleSpreadOfUsedFragment,
     Edit::TypenameOnlyInVariantSpread,
     Edit::TypenameOnlyInVariantInline,
+    Edit::ImpossibleAbstractCondition,
+    Edit::ImpossibleAbstractSpread,
 ];
 
 impl Edit {
@@ -164,6 +169,8 @@ impl Edit {
             Edit::ImpossibleSpreadOfUsedFragment => "impossible-spread-of-used-fragment",
             Edit::TypenameOnlyInVariantSpread => "typename-only-in-variant-spread",
             Edit::TypenameOnlyInVariantInline => "typename-only-in-variant-inline",
+            Edit::ImpossibleAbstractCondition => "impossible-abstract-type-condition",
+            Edit::ImpossibleAbstractSpread => "impossible-abstract-fragment-spread",
         }
     }
     /// document-level edits are applied once per operation, not per position
@@ -230,11 +237,15 @@ fn rename_type(s: &mut ASchema, old: &str, new: &str) {
 
 /// a composite type whose possible types do not intersect `parent`'s (and which is not `parent`)
 fn disjoint_type(s: &ASchema, parent: &str, pick: usize) -> Option<String> {
+    disjoint_type_of(s, parent, pick, false)
+}
+
+fn disjoint_type_of(s: &ASchema, parent: &str, pick: usize, abstract_only: bool) -> Option<String> {
     let pp = s.possible_types(parent);
     let mut cands: Vec<String> = s
         .types
         .iter()
-        .filter(|t| matches!(t, AType::Object { .. } | AType::Interface { .. } | AType::Union { .. }))
+        .filter(|t| matches!(t, AType::Interface { .. } | AType::Union { .. }) || (!abstract_only && matches!(t, AType::Object { .. })))
         .map(|t| t.name().to_string())
         .filter(|n| n != parent && !s.possible_types(n).iter().any(|p| pp.contains(p)))
         .collect();
@@ -356,6 +367,23 @@ pub fn apply(s: &ASchema, doc: &ADoc, edit: Edit, pos: Option<&Pos>, op_idx: usi
             let at = pick % (set.len() + 1);
             set.insert(at, ASel::Spread { name: "MisplacedFragment".into() });
             desc = format!("spread of a fragment on `{}` which can never apply at {}", t, pos.describe());
+        }
+        Edit::ImpossibleAbstractCondition => {
+            let pos = pos?;
+            let t = disjoint_type_of(s, &pos.parent_type, pick, true)?;
+            let set = selset_mut(&mut d, pos);
+            let at = pick % (set.len() + 1);
+            set.insert(at, ASel::Inline { on: t.clone(), sub: vec![ASel::Typename] });
+            desc = format!("inline fragment on the abstract type `{}`, none of whose possible types can occur at {}", t, pos.describe());
+        }
+        Edit::ImpossibleAbstractSpread => {
+            let pos = pos?;
+            let t = disjoint_type_of(s, &pos.parent_type, pick, true)?;
+            d.frags.push(AFrag { name: "MisplacedFragment".into(), on: t.clone(), sels: vec![ASel::Typename] });
+            let set = selset_mut(&mut d, pos);
+            let at = pick % (set.len() + 1);
+            set.insert(at, ASel::Spread { name: "MisplacedFragment".into() });
+            desc = format!("spread of a fragment on the abstract type `{}`, none of whose possible types can occur at {}", t, pos.describe());
         }
         Edit::ImpossibleSpreadOfUsedFragment => {
             // a fragment that is already spread (validly) somewhere else is additionally spread where its
